@@ -20,6 +20,8 @@ INF = math.inf
 # ---------------------------------------------------------------------------------------------
 
 class Model:
+    max_mats = 1200   # per connection choice and scenario; larger problems raise OverflowError (case skipped)
+
     def __init__(self, spec, cons=None):
         self.spec = spec = S.normalize(spec)
         self.nodes = S.node_map(spec)
@@ -170,7 +172,7 @@ class Model:
     def conn_sets(self, k, clos, max_parallel=None):
         """list of valid matrices (tuple of tuple) for connection choice k given the present nodes"""
         src, tgt, s_spec, t_spec, L = self.conn_problem(k, clos, max_parallel)
-        return enum_matrices(s_spec, t_spec, L)
+        return enum_matrices(s_spec, t_spec, L, limit=self.max_mats)
 
     # -----------------------------------------------------------------------------------------
     # architectures
